@@ -26,6 +26,7 @@ func main() {
 	replayDir := flag.String("replaydir", "/verif/replay", "where replay files go")
 	explain := flag.Bool("explain", true, "split conjunctive goals into one obligation per conjunct (debugging aid)")
 	only := flag.String("only", "", "only obligations whose name contains this string")
+	dumpfn := flag.String("dumpfn", "", "print the SSA of a function and exit")
 	flag.Parse()
 	if env := os.Getenv("VERIF_TIER"); env != "" && *tier == "quick" {
 		*tier = env
@@ -35,6 +36,16 @@ func main() {
 	if err != nil {
 		fmt.Fprintln(os.Stderr, "govc: engine error:", err)
 		os.Exit(2)
+	}
+	if *dumpfn != "" {
+		if f := w.AllFns[*dumpfn]; f != nil {
+			f.WriteTo(os.Stdout)
+		} else if f := w.SPkg.Func(*dumpfn); f != nil {
+			f.WriteTo(os.Stdout)
+		} else {
+			fmt.Println("no such function")
+		}
+		os.Exit(0)
 	}
 	tLoad := time.Since(t0)
 	var active map[string]bool
